@@ -505,6 +505,15 @@ class ModMonitor(prog.Monitor):
             bw = getattr(obj, "mod_bandwidth", None)
             if bw:
                 ctx.count("modulated_lengths_checked_with_bandwidth")
+            # the channel duration including fall time, recomputed from the timeline (end of the last instruction
+            # or the end of the last pulse plus its accounted fall time; interval in EOM gray cases)
+            from vmon.seqmon import pending_fall_bounds
+            lo, hi = pending_fall_bounds(c)
+            if not (lo <= got[0] <= hi):
+                ctx.violation("modulated-length", f"{n}: modulated samples end at {got[0]} but the channel lasts "
+                              f"{lo}{'' if lo == hi else '..' + str(hi)} ns including the last pulse's fall time "
+                              f"(get_duration(..., include_fall_time=True) = {want})",
+                              "modulated-length-vs-timeline:" + ("eom" if c["eom"] else "std"))
             if got != (want,) * 3:
                 ctx.violation("modulated-length", f"{n}: modulated amp/det/phase lengths {got}, "
                               f"get_duration({n}, include_fall_time=True) = {want} (without fall time {plain})",
